@@ -79,6 +79,8 @@ type PField struct {
 	Num     int
 	Name    string
 	JSONOpt string // explicit json_name option ("" = none)
+	// Unpacked: a repeated scalar field declared [packed = false] (the reference encoder writes one record per element)
+	Unpacked bool
 	JSON    string // JSON name according to the reference descriptor (filled after parsing)
 	Card    int
 	K       pKind // element / map-value kind
@@ -106,7 +108,7 @@ func (f *PField) typeText() string {
 
 // unpackedContainer: the field is written as a run of same-numbered records (unpacked list or map).
 func (f *PField) unpackedContainer() bool {
-	return f.Card == cMap || (f.Card == cRepeated && !f.K.packable())
+	return f.Card == cMap || (f.Card == cRepeated && (!f.K.packable() || f.Unpacked))
 }
 
 type PMsg struct {
@@ -329,6 +331,8 @@ type pgenOpts struct {
 	NoMaps        bool
 	// MsgChance: one in MsgChance fields is message-typed (0: 4).
 	MsgChance int
+	// UnpackedScalars: some repeated scalar fields are declared [packed = false]
+	UnpackedScalars bool
 	// NoPackedFixed: no repeated field of a fixed-width kind (fixed32/64, sfixed32/64, float, double).
 	NoPackedFixed bool
 }
@@ -496,6 +500,9 @@ func genPSchema(t *simrt.Tape, o pgenOpts) *PSchema {
 			if f.Card == cMap {
 				f.KeyK = g.keyKind()
 			}
+			if o.UnpackedScalars && f.Card == cRepeated && f.K.packable() && t.Chance(1, 3, "pf.unpacked") {
+				f.Unpacked = true
+			}
 			if o.JSONNames && t.Chance(1, 4, "pf.jsonname") {
 				n := 1 + t.Intn(5, "pf.jsonname.len")
 				var sb strings.Builder
@@ -572,8 +579,15 @@ func renderProto(s *PSchema) string {
 		fmt.Fprintf(&sb, "message %s {\n", m.Name)
 		for _, f := range m.Fields {
 			fmt.Fprintf(&sb, "  %s %s = %d", f.typeText(), f.Name, f.Num)
+			var fo []string
 			if f.JSONOpt != "" {
-				fmt.Fprintf(&sb, " [json_name=%s]", protoQuote(f.JSONOpt))
+				fo = append(fo, "json_name="+protoQuote(f.JSONOpt))
+			}
+			if f.Unpacked {
+				fo = append(fo, "packed=false")
+			}
+			if len(fo) > 0 {
+				sb.WriteString(" [" + strings.Join(fo, ", ") + "]")
 			}
 			sb.WriteString(";\n")
 		}
